@@ -31,6 +31,7 @@ def strategies_for(opts_rng):
         words.RenameStats(),
         words.SplitPair(bar_first=rng.random() < 0.5),
         words.ExpandTwice(which=rng.choice((0, 1, 2)), drop=drop),
+        words.TrackStat(),
     ]
 
 
